@@ -1,5 +1,7 @@
 package filesys
 
+import "sync"
+
 // C13 — AtomicCreate is all-or-nothing, durable-before-visible, interference-free.
 
 var verifDirs = []string{"d0", "d1"}
@@ -151,7 +153,7 @@ func verifC13Disjoint() {
 	_ = root
 	verifCover("c13/disjoint")
 	if verifNative() { // replay only: the two calls race natively; each must end up with its own data
-		for it := 0; it < 3000; it++ {
+		for it := 0; it < 600; it++ {
 			done := make(chan bool, 2)
 			go func() { done <- !verifTry(func() { fs.AtomicCreate(da, na, []byte("AAAA")) }) }()
 			go func() { done <- !verifTry(func() { fs.AtomicCreate(db, nb, []byte("BB")) }) }()
@@ -254,4 +256,45 @@ func verifRepeat(s string, n int) string {
 		out += s
 	}
 	return out
+}
+
+// (v') concurrent creators of the SAME name: whatever the interleaving of their system calls, both
+// calls return and dir/name ends up with the complete data of one of them; a reader that opens the
+// file afterwards never sees a mixture.
+func verifC13SameName() {
+	fs, root := verifC13Setup()
+	path := root + "/d0/a"
+	a := verifNondetBytes("A", 3)
+	b := verifNondetBytes("B", 1+verifChoose(2))
+	var pa, pb bool
+	if !verifNative() {
+		var wg sync.WaitGroup
+		wg.Add(1)
+		verifKernelPreempt(true)
+		go func() {
+			pa = verifTry(func() { fs.AtomicCreate("d0", "a", a) })
+			wg.Done()
+		}()
+		pb = verifTry(func() { fs.AtomicCreate("d0", "a", b) })
+		wg.Wait()
+		verifKernelPreempt(false)
+		verifAssert("samename/both-calls-return", verifAnd(!pa, !pb))
+		verifAssert("samename/complete-data-of-one", verifOr(verifStateIs(path, true, a), verifStateIs(path, true, b)))
+		verifCover("c13/samename")
+		return
+	}
+	// native replay: race the two calls for real
+	verifCover("c13/samename")
+	for it := 0; it < 400; it++ {
+		done := make(chan bool, 2)
+		go func() { done <- verifTry(func() { fs.AtomicCreate("d0", "a", []byte("AAAAAAAA")) }) }()
+		go func() { done <- verifTry(func() { fs.AtomicCreate("d0", "a", []byte("BB")) }) }()
+		p1, p2 := <-done, <-done
+		got, _ := verifKernelFile(path)
+		if p1 || p2 || (string(got) != "AAAAAAAA" && string(got) != "BB") {
+			verifAssert("samename/both-calls-return", !(p1 || p2))
+			verifAssert("samename/complete-data-of-one", string(got) == "AAAAAAAA" || string(got) == "BB")
+			return
+		}
+	}
 }
